@@ -5,7 +5,7 @@ INVARIANT Inv RevRev
 PROPERTY CloneIndependent FailedPushUnchanged
 ACTION_CONSTRAINT Emit
 CONSTANTS
-  MaxLen = 6
+  MaxLen = 5
   Rich = FALSE
   KindsUsed <- KindsMulti
   LayoutsUsed <- LayoutsAll
